@@ -15,14 +15,16 @@ def find(dump, kind, ns, name):
     return None
 
 
-def g_faults(f):
+def g_faults(f, old_ds_read=False):
     f = f or {}
     # a lost answer (call applied, error returned) looks to the reconcile exactly like a rejection: the
     # model predicts the calls attempted and the error flags; the store after the step is re-read anyway
     return gC("MkFaults", gL([P.nm(n) for n in f.get("create_nodes") or []]), gL([P.nm(n) for n in f.get("delete_pods") or []]),
               gL([P.nm(n) for n in f.get("patch_pods") or []]), gB(bool(f.get("status"))),
               # a failing List of the nodes, pods or settings: the sync ends before anything is planned
-              gB(any(k in ("Node", "Pod", "ExtendedDaemonsetSetting") for k in f.get("list_fail") or [])))
+              # (so does a failing Get of the old DaemonSet of a declared migration)
+              gB(any(k in ("Node", "Pod", "ExtendedDaemonsetSetting") for k in f.get("list_fail") or []) or
+                 (old_ds_read and "DaemonSet" in (f.get("get_fail") or []))))
 
 
 def g_backoff(entries):
@@ -80,7 +82,8 @@ def encode_ers(step, options):
         if d is not None:
             ods = find(pre, "DaemonSet", op["ns"], d)
     sn = gC("MkErsSnap", gZ(step["now"]), P.g_ers(rs), gO(e, P.g_eds), gL(nodes), gL(pods), gL(sets), gO(ods, P.g_daemonset),
-            g_backoff(step.get("backoff_pre")), gB(bool(options.get("affinity"))), g_faults(faults_from_calls(step)))
+            g_backoff(step.get("backoff_pre")), gB(bool(options.get("affinity"))),
+            g_faults(faults_from_calls(step), old_ds_read=e is not None and (e["metadata"].get("annotations") or {}).get(P.A_OLD_DS) is not None))
     creates, deletes, adds, dels, status = [], [], [], [], None
     for c in step["calls"]:
         if c["kind"] == "Pod":
